@@ -351,13 +351,143 @@ def run_helpers(chk):
     _emit(chk, fn, agg, n)
 
 
+class ApplyHooks(AppHooks):
+    """_apply_to: the data store's membership test, as_completed (contract T: one result per input, any order),
+    the writer's main() and the logger are externals"""
+
+    def __init__(self, funcs, order, main_fails_on):
+        super().__init__(funcs, ["data"], ["data"])
+        self.order = order
+        self.main_fails_on = main_fails_on
+        self.globals.update({"DataStoreABC": ("func", "DataStoreABC"), "DataMember": ("func", "DataMember"),
+                             "Path": ("func", "Path"), "time": Opaque("module", modname="time")})
+
+    def isinst(self, v, t):
+        ts = t if isinstance(t, tuple) and not (t and t[0] == "func") else (t,)
+        for x in ts:
+            if x in (("func", "DataStoreABC"), ("func", "Path")) or x is str:
+                if isinstance(v, str) and x is str:
+                    return True
+                continue
+            if x == ("func", "DataMember"):
+                if isinstance(v, Opaque) and v.tag == "member":
+                    return True
+                continue
+            if super().isinst(v, x):
+                return True
+        return False
+
+    def call_name(self, eng, name, args, kw, env):
+        if name == "Path":
+            return args[0]
+        if name == "_proxy_input":
+            return eng.call("_proxy_input", dict(dstore=list(args[0])))
+        if name == "getattr":
+            o, a = args[0], args[1]
+            if isinstance(o, Opaque) and a in o.attrs:
+                return o.attrs[a]
+            return args[2] if len(args) > 2 else None
+        if name == "str":
+            return "text"
+        return super().call_name(eng, name, args, kw, env)
+
+    def call_value(self, eng, fn, args, kw, env):
+        if isinstance(fn, Opaque) and fn.tag == "id_from_source":
+            x = args[0]
+            if isinstance(x, Opaque):
+                return x.attrs.get("uid", x.attrs.get("unique_id"))
+            return x
+        return super().call_value(eng, fn, args, kw, env)
+
+    def call_method(self, eng, obj, meth, args, kw, env):
+        if isinstance(obj, Rec) and obj.cls == "data_store" and meth == "__contains__":
+            done = eng.choose(2, f"in_store[{args[0]}]") == 0
+            eng.trace.append(("in_store", args[0], done))
+            return done
+        if isinstance(obj, Rec) and meth == "set_logger":
+            obj.fields["logger"] = None
+            return None
+        if isinstance(obj, Rec) and meth == "as_completed":
+            inputs = list(args[0])
+            eng.trace.append(("as_completed", tuple(i.attrs["source"].attrs["uid"] for i in inputs)))
+            # assumed contract T: one result per input, in any order (this run: the permutation self.order)
+            perm = [p_ for p_ in self.order if p_ < len(inputs)]
+            return [inputs[p_] for p_ in perm]
+        if isinstance(obj, Rec) and meth == "main":
+            ident = kw.get("identifier")
+            eng.trace.append(("writer.main", ident))
+            if ident in self.main_fails_on:
+                eng.trace.append(("writer.main->", "raise"))
+                raise Raise("ValueError")
+            return Opaque("member-written", uid=ident)
+        if isinstance(obj, dict) and meth == "values":
+            return list(obj.values())
+        return super().call_method(eng, obj, meth, args, kw, env)
+
+    def truth(self, eng, v):
+        if isinstance(v, Opaque) and v.tag == "member":
+            return True
+        return super().truth(eng, v)
+
+
+def run_apply_to(chk):
+    fn = "app.composable._apply_to"
+    funcs = {"_apply_to": extract.get(FILE, "_apply_to"), "_proxy_input": extract.get(FILE, "_proxy_input")}
+    ids = ["i0", "i1", "i2"]
+    agg, n = {}, 0
+
+    def note(clause, ok, info):
+        a = agg.setdefault(clause, {"n": 0, "bad": []})
+        a["n"] += 1
+        if not ok:
+            a["bad"].append(info)
+    for k in (1, 2, 3):
+        for order in itertools.permutations(range(k)):
+            for fails in ([], ["i0"], ["i1"]):
+                hooks = ApplyHooks(funcs, order, fails)
+                eng = Engine(funcs, hooks)
+
+                def entry(e):
+                    members = [Opaque("member", uid=ids[j], unique_id=ids[j], source=None) for j in range(k)]
+                    for mm in members:
+                        mm.attrs["source"] = mm
+                    selfv = Rec("writer-app", input=Rec("upstream-app"), data_store=Rec("data_store"), logger=None)
+                    return e.call("_apply_to", dict(self=selfv, dstore=members, id_from_source=Opaque("id_from_source"),
+                                                    parallel=False, par_kw=None, logger=False, cleanup=True, show_progress=False))
+                try:
+                    paths = eng.run(entry, [])
+                except Unsupported as u:
+                    chk.undecided.append(f"{fn}: UNSUPPORTED {u}")
+                    return
+                for p in paths:
+                    if p.outcome == "abort":
+                        continue
+                    n += 1
+                    tr = p.trace
+                    in_store = {t[1]: t[2] for t in tr if t[0] == "in_store"}
+                    written = [t[1] for t in tr if t[0] == "writer.main"]
+                    new = [i for i in ids[:k] if not in_store.get(i, False)]
+                    info = {"text": f"inputs={ids[:k]}, already stored={sorted(i for i in in_store if in_store[i])}, completion order={order}, "
+                                    f"writer fails on {fails}: main() called for {written}; outcome {p.outcome} {p.value if p.outcome == 'raise' else ''}"}
+                    failed_here = any(t == ("writer.main->", "raise") for t in tr)
+                    note("noexcept: a record that fails inside the writer does not abort apply_to",
+                         not (p.outcome == "raise" and failed_here), info)
+                    if not failed_here and p.outcome == "return":
+                        note("post: every identifier not yet in the store is written exactly once, stored ones are skipped",
+                             sorted(written) == sorted(new), info)
+                    if p.outcome == "raise" and not failed_here:
+                        note("post: apply_to raises only for an empty/duplicate input set", p.value in ("ValueError", "RuntimeError") and not new or p.value == "ValueError", info)
+    _emit(chk, fn, agg, n)
+
+
 def run(chk):
-    for q in ("_call", "_validate_data_type", "_source_wrapped", "_proxy_input"):
+    for q in ("_call", "_validate_data_type", "_source_wrapped", "_proxy_input", "_apply_to"):
         chk.function(FILE, q, "P")
     only = getattr(chk, "only", None)
     if not only or "proof" in only:
         run_call(chk)
         run_helpers(chk)
+        run_apply_to(chk)
         chk.discharge(workers=1)
     chk.assume("assumed contract T: PAR.as_completed(f, xs) yields f(x) exactly once per x, in any order (multiprocessing "
                "result delivery is trusted; stood in for by the bounded tier)")
